@@ -528,14 +528,24 @@ class Job:
             The new state point to be assigned.
         """
         with self._lock:
-            if self._statepoint_requires_init:
+            lazy = self._statepoint_requires_init
+            if lazy:
                 # Instantiate state point data lazily - no load is required, since
                 # we are provided with the new state point data.
                 self._statepoint = _StatePointDict(
                     jobs=[self], filename=self._statepoint_filename
                 )
                 self._statepoint_requires_init = False
-            self.statepoint.reset(new_statepoint)
+            try:
+                # Validate the complete state point first, the reset would
+                # apply all keys that precede an invalid one.
+                self._statepoint._validate(new_statepoint)
+                self.statepoint.reset(new_statepoint)
+            except Exception:
+                if lazy:
+                    # The empty placeholder must not pass for the state point.
+                    self._statepoint_requires_init = True
+                raise
 
         # Register a copy, the caller may modify new_statepoint later.
         self._project._register(self.id, self.statepoint())
